@@ -270,8 +270,58 @@ pub fn c14_queries(s: &Shipped) -> (Vec<String>, Vec<usize>) {
             }
         }
     }
+    // fact words in other spellings - a suffix or prefix glued on (possessive, plural, hyphen, dot,
+    // digit, accent), capitals - alone and next to another word of the same fact. What the tool makes
+    // of such a word is decided by the analysis of query text, which every session must do alike.
+    let mut spelled: Vec<String> = Vec::new();
+    {
+        let fact_words: Vec<(String, Option<String>)> = {
+            let mut seen = BTreeSet::new();
+            let mut v = Vec::new();
+            for toks in &s.all_tokens() {
+                for (i, t) in toks.iter().enumerate() {
+                    if seen.insert(t.clone()) {
+                        let other = toks.iter().enumerate().find(|(j, _)| *j != i).map(|(_, o)| o.clone());
+                        v.push((t.clone(), other));
+                    }
+                }
+            }
+            v
+        };
+        let short: Vec<&(String, Option<String>)> = fact_words.iter().filter(|(w, _)| (2..=5).contains(&w.chars().count())).collect();
+        let long: Vec<&(String, Option<String>)> = fact_words.iter().filter(|(w, _)| w.chars().count() > 5).collect();
+        let pick = |v: &Vec<&(String, Option<String>)>, n: usize| -> Vec<(String, Option<String>)> {
+            let step = (v.len() / n.max(1)).max(1);
+            v.iter().step_by(step).take(n).map(|x| (*x).clone()).collect()
+        };
+        for (w, other) in pick(&short, 90).into_iter().chain(pick(&long, 50)) {
+            let cap = {
+                let mut c = w.chars();
+                c.next().map(|f| f.to_uppercase().collect::<String>() + c.as_str()).unwrap_or_default()
+            };
+            for v in [format!("{w}'s"), format!("{w}s"), format!("{w}'"), format!("{w}."), format!("{w}-"), format!("{w}2"), format!("{w}é"), format!("'{w}"), format!("{w}_"), w.to_uppercase(), cap.clone(), format!("{cap}'s")] {
+                let mut qs = vec![v.clone()];
+                if let Some(o) = &other {
+                    qs.push(format!("{v} {o}"));
+                    qs.push(format!("{o} {v}"));
+                }
+                for q in qs {
+                    if let Some(f) = typed_forms(&q.split(' ').collect::<Vec<_>>()).into_iter().next() {
+                        if set.insert(f.clone()) {
+                            spelled.push(f);
+                        }
+                    }
+                }
+            }
+        }
+    }
     let all: Vec<String> = set.into_iter().collect();
     let mut keep = Vec::new();
+    for f in spelled.iter().step_by(5) {
+        if let Ok(i) = all.binary_search(f) {
+            keep.push(i);
+        }
+    }
     for f in shared.iter().take(400) {
         if let Ok(i) = all.binary_search(f) {
             keep.push(i);
